@@ -44,3 +44,39 @@ Theorem C02_tree_well_typed : forall S, wf_schema S = true -> forall v t,
   has_type S t v = true -> wt (to_tval S t v) = true /\ ttype_of (to_tval S t v) = ttype_of_ty S t.
 Proof. intros S Hwf v t Ht. split; [exact (EncP.to_tval_wt S Hwf v t Ht)|exact (EncP.to_tval_ttype S v t Ht)]. Qed.
 Print Assumptions C02_tree_well_typed.
+
+(* ---------- the EMITTED code, lowered (structural tie: emitted text -> ops -> model) ----------
+   tools/emitted_ops.py lowers, on every run, the bodies of encode / size / decode of every type the real pilota-build
+   emitted for the corpus (plain and keep_unknown_fields configurations) into rows of ops
+   (Generated/EmittedOps.v, next to the corpus schema as a Coq term). *)
+From PVGen Require Import EmitOps EmitDen Generated.EmittedOps Proofs.EmitOpsP Proofs.EmitTableP.
+
+(* the table lemma, by computation: for every type of the corpus schema the regenerated rows (normalised: String / FastStr,
+   Bytes / Vec<u8>, u8 / i8, hash / btree, Box / Arc and Rust names forgotten) ARE the rows the template model prescribes --
+   field order, field ids, announced TTypes, method kinds, optional wrappers, decoder arms, variables, required checks,
+   late defaults, retention statements; and the three bodies of a type name the same members under the same ids *)
+Theorem C02_emitted_ops_match :
+  ops_match corpus_schema false emitted_plain /\ ops_match corpus_schema true emitted_keep /\
+  present emitted_plain = length corpus_schema /\ (0 < present emitted_keep)%nat.
+Proof. exact emitted_ops_match. Qed.
+Print Assumptions C02_emitted_ops_match.
+
+Theorem C02_emitted_row_is_prescribed : forall n r d,
+  lookup corpus_schema n = Some d ->
+  (nth_error emitted_plain n = Some r -> r <> ENone -> norm_row r = presc_row corpus_schema false d /\ names_ok r = true) /\
+  (nth_error emitted_keep n = Some r -> r <> ENone -> norm_row r = presc_row corpus_schema true d /\ names_ok r = true).
+Proof. exact emitted_row_is_prescribed. Qed.
+Print Assumptions C02_emitted_row_is_prescribed.
+
+(* the prescribed rows denote the model: every schema, either configuration, every protocol and buffer kind, every value
+   (without an `_UnknownFields` variant where the configuration has no retention) *)
+Theorem C02_ops_denote_encode : forall S ck p, void_variants_zero S = true -> forall k v t,
+  (ck = true \/ no_uu v = true) -> den_enc (presc_tbl S ck) p k (presc_vop S t) v = enc_ty S p k t v.
+Proof. exact den_enc_presc. Qed.
+Print Assumptions C02_ops_denote_encode.
+
+(* the chain for the corpus of this run *)
+Theorem C02_emitted_encode_is_model : forall p k t v, no_uu v = true ->
+  den_enc (map norm_row emitted_plain) p k (presc_vop corpus_schema t) v = enc_ty corpus_schema p k t v.
+Proof. exact emitted_encode_is_model. Qed.
+Print Assumptions C02_emitted_encode_is_model.
